@@ -9,7 +9,7 @@ git apply "$PATCH" || { echo "patch does not apply"; exit 2; }
 trap 'git -C /repo checkout -- . ' EXIT
 cd /verif
 for id in "$@"; do
-  out=$(VERIF_SEED=${VERIF_SEED:-0} ./check "$id" --tier "${TIER:-quick}" 2>&1)
+  out=$(VERIF_EVIDENCE_DIR=/verif/work/evidence-seeded VERIF_SEED=${VERIF_SEED:-0} ./check "$id" --tier "${TIER:-quick}" 2>&1)
   rc=$?
   echo "== $id rc=$rc"
   echo "$out" | grep -E "^(VIOLATION|KNOWN|  signature|check:)" | head -${LINES_MAX:-12}
